@@ -113,7 +113,7 @@ ROWS = [
      "state words are < 30323 after the first step and <= 2^24 when seeded (mask 0x00FFFFFF, "
      "+1 in CLEAR): 172 * 2^24 < 2^32", None),
     (r"^mach::function::Function::(spc|string)/call:str::repeat#1$", "guarded",
-     "repeat count was range-checked against 255", G(" Gt const:255)", False)),
+     "repeat count was range-checked against 255", {"upper_bound": 255}),
     (r"^mach::function::Function::tab/call:str::repeat#1$", "bounded",
      "len <= 255 in both arms (|tab| <= 255)", None),
     (r"^mach::function::Function::tab/assert:OverflowNeg\(i16\)#1$", "guarded",
